@@ -139,13 +139,13 @@ Print Assumptions C09_foreign_ovf1.
 (* labels without spaces come back unchanged: underscores and every other character included;
    the only further guard is "no braces" (the reader removes { and } from every label) *)
 Theorem C09_labels_partial : forall l : list string,
-  Forall (fun c => has_sp c = false /\ has_brace c = false) l ->
+  Forall label_ok l ->
   map convert_label (map field_label l) = l.
 Proof. exact labels_roundtrip. Qed.
 Print Assumptions C09_labels_partial.
 
 Example C09_labels_partial_nonvacuous :
-  Forall (fun c => has_sp c = false /\ has_brace c = false) ["m_x"; "a-b"; "_c"; "d_"; "e.f"]%string.
+  Forall label_ok ["m_x"; "a-b"; "_c"; "d_"; "e.f"]%string.
 Proof. repeat constructor. Qed.
 
 (* missing part of the full statement: a label containing a brace loses it ({a} -> a) *)
